@@ -451,7 +451,8 @@ class StatefulAutonomous:
         new_state_start = tm
 
         # determine if the time has passed to execute the next state
-        if state is not None and state.expires < tm:
+        # a state that was just entered runs once before it can expire
+        if state is not None and state.ran and state.expires < tm:
             self.next_state(state.next_state)
             new_state_start = state.expires
             state = self.__state
